@@ -78,6 +78,11 @@ CHECKS.update({
          "TLC checks on Link that what the remote actor receives is a strictly increasing subsequence, nothing is both delivered and dead-lettered, every message is accounted for and the sender always gets through; on Framing with resets that only completely received frames are delivered. Simulated reset behaviours (cut inside a prefix, inside a body, at a boundary) are replayed byte-exactly on the real reader; streams with undecodable or over-long frames, a peer that is unreachable (ReconnectLimit 0-2) and a peer process that dies and returns exercise the real mailbox. FaultMon: subsequence / intact / no duplicate, later frames delivered after an undecodable one, dead letter exactly once for messages that could not be written, recovery after the peer returns, Tell returns promptly.",
          "The byte at which a kernel write fails cannot be controlled: messages accepted by the kernel and lost with the connection are tolerated; real time with wide margins for the sender-side scenarios; KNOWN FINDING KF-C14-1 (Tell blocks the caller while the peer is unreachable).",
          "§5 C14"),
+ "C15": ("model_checking",
+         "TLA+ spec LocTrans states the location-independent outcome of every reference-taking operation and enumerates the operation x location x forwarder x message-flavour matrix (TLC); every cell is executed on two real systems over loopback TCP; outcomes validated by TLC against TransMon",
+         "Exhaustive over the matrix (34 cells): tell, ask/reply, immediate and poison kill, watch, unwatch, ping, pipe success/failure with local and remote forwarders, scheduler delivery, each with a registered custom message and with a Codec-only message where a message is carried. Each cell is run from an actor on system A against actors on A or on system B; TransMon requires the observed outcome to equal the location-independent expectation and no built-in message to fail decoding.",
+         "Outcomes are observed with real-time waits (1.5 s; 300 ms for the negative unwatch case); one Codec implementation; the matrix lists operations of ActorContext (ActorSystem shares the implementation).",
+         "§5 C15"),
 })
 
 NOT_YET = {
